@@ -13,7 +13,7 @@ FORMAT = ("script [time_based; wsize; wdur_ms; min_calls; fnum; fden; slow_on; s
 TRUSTED = ["rates are compared as exact rationals in the model (cnt*den >= num*total); the code compares binary64 quotients — equal for the small counts/denominators generated (distinct small rationals never round to the same double)",
            "tokio Mutex around the Circuit is free at poll granularity (no guard is held across an await); oneshot gate",
            "poll atomicity"]
-ASSUMPTIONS = ["whole-millisecond instants", "sliding_window_duration is always set for time-based windows"]
+ASSUMPTIONS = ["whole-millisecond instants", "a wait_duration_in_open of 10^18 ms in a script stands for Duration::MAX (stay open until closed by hand)", "sliding_window_duration is always set for time-based windows"]
 
 
 def cfg(tb=0, wsize=4, wdur=100, minc=2, fnum=1, fden=2, slow_on=0, slow_thr=50, snum=1, sden=2, wait=30, perm=2, fb=0, n=4):
@@ -96,7 +96,7 @@ def random_cfg(rng, n):
     slow_on = rng.random() < 0.4
     snum, sden = rng.choice([(0, 1), (1, 3), (1, 2), (1, 1)])
     return cfg(int(tb), wsize, rng.choice([10, 20, 50]), minc, fnum, fden, int(slow_on), rng.choice([5, 10, 20]),
-               snum, sden, rng.choice([0, 10, 10, 30]), rng.choice([1, 1, 2, 3]), int(rng.random() < 0.3), n)
+               snum, sden, rng.choice([0, 10, 10, 30, 10 ** 18]), rng.choice([1, 1, 2, 3]), int(rng.random() < 0.3), n)
 
 
 def random_seq_history(rng, length=None):
